@@ -45,7 +45,7 @@ def main(tier, only=None):
     ]
     if want("hideset"):
         e1.run_set(chk, "c09/macro.c", [e1.H("h_hideset", "hideset/algebra", unwind=10, timeout=300),
-                                         e1.H("h_expand_hideset", "hideset/expansion-gets-intersection-plus-name", unwind=10, timeout=600,
+                                         e1.H("h_expand_hideset", "hideset/expansion-gets-intersection-plus-name", unwind=12, timeout=600, object_bits=11,
                                               desc="real expand_macro on `FM ( ) z` / `OM z` with symbolic hide sets on the macro token, the closing paren and the next token")], workers=2)
     if want("kernels"):
         chk.bounds += ["stringize: the real stringize() on 1..2 tokens of symbolic kind over { ab, \\, \"x\\n\", '\\\\', \"q\", + } with symbolic white space",
